@@ -443,7 +443,7 @@ class Emitter:
             self.w("@staticmethod")
         if kind == "prop":
             self.w("@property")
-        self.w(f"def {name}({self.signature(fn)}){ret}:")
+        self.w(f"{'async ' if fn.get('async') else ''}def {name}({self.signature(fn)}){ret}:")
         self.ind += 1
         if fn.get("doc"):
             self.w(repr(fn["doc"]))
